@@ -131,6 +131,13 @@ def judge_parse(ctx, mon, cfg, parser, prods, start, toks, text, expected, smart
             # ... or as a generator that, between two lines, uses the SAME parser for something else (a caller
             # that checks an included fragment while the outer text is being read)
             src = _reentrant_lines(ctx, parser, list(_LINES))
+        if as_lines and len(text) % 5 == 4:
+            # ... or as an open text file: the lines carry their terminators, which are characters like any other
+            # (inside a multi-line token the terminator stays, and the lines of a token are joined by a line break)
+            import io
+            src = io.StringIO(text)
+            expected = [(n, v.replace("\n", "\n\n") if isinstance(v, str) else v) for n, v in expected]
+            ctx.count("texts_read_from_a_file_object")
         tree = parser.parse(src, do_cleanup=False, **kw)
     except llparser.ParsingError:
         ctx.count("rejected")
